@@ -195,7 +195,7 @@ impl Universe {
         let native_balances = (0..accts.len()).map(|i| if i >= 10 { 0 } else { pick_amount(rng) }).collect();
         let fees = FEE_NAMES.iter().map(|n| (n.to_string(), pick_fee(rng, n))).collect();
         let max_tx_bytes = match if _profile == "proposals" { rng.gen_range(0..3) } else { rng.gen_range(0..5) } {
-            0 => rng.gen_range(400..3_000),
+            0 => if _profile == "proposals" { rng.gen_range(150..700) } else { rng.gen_range(400..3_000) },
             1 => rng.gen_range(3_000..20_000),
             _ => 1_000_000,
         };
